@@ -1,10 +1,17 @@
-// C05: a function the token / governance model mirrors, for the Go->Lean translator of gofuncs.go (appended to
+// C05: functions the token / governance model mirrors, for the Go->Lean translator of gofuncs.go (appended to
 // its spec list; NEO.setRegisterPrice and NEO.SetGASPerBlock are in the base list already). The theorems
 // `generated = model` are in lean/NeoModel/Proofs/GoFuncs/C05.lean.
+// Tried, outside the subset today: calculateNotaryReward (result *big.Int), Notary.lockDepositUntil / onPayment /
+// Policy.unblockAccount (result stackitem.Item), Notary.withdrawDeferrable (composite literal), NEO.ModifyAccountVotes /
+// RegisterCandidateInternal / UnregisterCandidateInternal / CalculateNEOHolderReward (type assertion on the cache),
+// runtime.CheckHashedWitness (return of a call with two results).
 package main
 
 func init() {
 	gfSpecs = append(gfSpecs,
 		gfSpec{Pkg: "./pkg/config", Recv: "ProtocolConfiguration", Func: "ShouldUpdateCommitteeAt", Lean: "shouldUpdateCommitteeAt"},
+		gfSpec{Pkg: "./pkg/core/native", Recv: "NEO", Func: "distributeGas", Lean: "neoDistributeGas"},
+		gfSpec{Pkg: "./pkg/core/native", Recv: "NEO", Func: "calculateBonus", Lean: "neoCalculateBonus"},
+		gfSpec{Pkg: "./pkg/core/native", Recv: "NEO", Func: "dropCandidateIfZero", Lean: "neoDropCandidateIfZero"},
 	)
 }
